@@ -135,6 +135,7 @@ class CheckC06(core.Check):
                         return r
                     r.stats["ephemerals_checked"] += 1
         r.stats["distinct_key_nonce_pairs"] += len(seen)
+        r.sets.setdefault("fault_cause_sets", set()).add(tuple(sorted(set((o, _cc(c)) for o, c in fired))))
         if fired and retried_ok and seen:
             r.nontrivial = True
             r.keys.add((variant, parsed.dh, tuple(sorted(set((o, _cc(c)) for o, c in fired)))))
